@@ -3,6 +3,9 @@
 module SS = Stdlib.String
 open Oracle_core
 
+(* ORACLE_HELPERS=BE: model instance (helpers of the big-endian branch, little-endian memory) for the forced-big-endian build *)
+let fbe = ref (Sys.getenv_opt "ORACLE_HELPERS" = Some "BE")
+
 let rec pos_bits = function XH -> [true] | XO p -> false :: pos_bits p | XI p -> true :: pos_bits p
 let n_bits = function N0 -> [] | Npos p -> pos_bits p      (* LSB first *)
 
@@ -101,15 +104,15 @@ let history spec bufs ops =
           let k = int_of_string f.(2) in
           let arg i = if nf > i then n_of_hex f.(i) else N0 in
           match f.(0) with
-          | "g" -> (match m_getter (coq_string f.(1)) (Some st.(k)) (N0 :: (if nf > 3 then [arg 3] else [])) with
+          | "g" -> (match m_getter !fbe (coq_string f.(1)) (Some st.(k)) (N0 :: (if nf > 3 then [arg 3] else [])) with
                     | RVal v -> "v" ^ hex_of_n v | r -> show r)
-          | "s" -> (match m_setter (coq_string f.(1)) (Some st.(k)) (N0 :: (if nf > 4 then [arg 3; arg 4] else [arg 3])) with
+          | "s" -> (match m_setter !fbe (coq_string f.(1)) (Some st.(k)) (N0 :: (if nf > 4 then [arg 3; arg 4] else [arg 3])) with
                     | RBuf (Some b) -> st.(k) <- b; "b" ^ hexb b | r -> show r)
-          | "i" -> (match m_init (coq_string f.(1)) (Some st.(k)) with
+          | "i" -> (match m_init !fbe (coq_string f.(1)) (Some st.(k)) with
                     | RBuf (Some b) -> st.(k) <- b; "b" ^ hexb b | r -> show r)
           | "l" -> let r = if nf > 5 then f.(5) else "x" in
                    let res = if r = "-" || r = "x" then None else Some (n_of_hex r) in
-                   (match m_legacy (coq_string f.(1)) (Some st.(k)) [N0; arg 3; arg 4] res with
+                   (match m_legacy !fbe (coq_string f.(1)) (Some st.(k)) [N0; arg 3; arg 4] res with
                     | LR (ok, p, x) ->
                         (match p with Some b -> st.(k) <- b | None -> ());
                         Printf.sprintf "r%s,%s,%s" (if ok then "0" else "E") (hexb st.(k))
@@ -137,13 +140,13 @@ let history spec bufs ops =
 let handle (ext : SS.t list -> SS.t option) line =
   let t = List.filter (fun x -> x <> "") (SS.split_on_char ' ' line) in
   match t with
-  | "G" :: name :: pdu :: ps -> show (m_getter (coq_string name) (pdu_of pdu) (N0 :: List.map n_of_hex ps))
-  | "S" :: name :: pdu :: ps -> show (m_setter (coq_string name) (pdu_of pdu) (N0 :: List.map n_of_hex ps))
-  | ["I"; name; pdu] -> show (m_init (coq_string name) (pdu_of pdu))
+  | "G" :: name :: pdu :: ps -> show (m_getter !fbe (coq_string name) (pdu_of pdu) (N0 :: List.map n_of_hex ps))
+  | "S" :: name :: pdu :: ps -> show (m_setter !fbe (coq_string name) (pdu_of pdu) (N0 :: List.map n_of_hex ps))
+  | ["I"; name; pdu] -> show (m_init !fbe (coq_string name) (pdu_of pdu))
   | ["RG"; qw; q; o; w; pdu] ->
-      show (m_rawget (n_of_hex qw) { dq = n_of_hex q; doff = n_of_hex o; dbits = n_of_hex w } (buf_of_hex pdu))
+      show (m_rawget !fbe (n_of_hex qw) { dq = n_of_hex q; doff = n_of_hex o; dbits = n_of_hex w } (buf_of_hex pdu))
   | ["RS"; qw; q; o; w; pdu; v] ->
-      show (m_rawset (n_of_hex qw) { dq = n_of_hex q; doff = n_of_hex o; dbits = n_of_hex w } (buf_of_hex pdu) (n_of_hex v))
+      show (m_rawset !fbe (n_of_hex qw) { dq = n_of_hex q; doff = n_of_hex o; dbits = n_of_hex w } (buf_of_hex pdu) (n_of_hex v))
   | ["SG"; fmt; field; pdu] -> show (s_get (coq_string fmt) (coq_string field) (buf_of_hex pdu))
   | ["SS"; fmt; field; pdu; v] -> show (s_set (coq_string fmt) (coq_string field) (buf_of_hex pdu) (n_of_hex v))
   | ["SI"; fmt; pdu] -> show (s_init (coq_string fmt) (buf_of_hex pdu))
@@ -151,7 +154,7 @@ let handle (ext : SS.t list -> SS.t option) line =
   | ["SN"; first; width; pdu; v] -> show (RBuf (Some (spec_insert (buf_of_hex pdu) (n_of_hex first) (n_of_hex width) (n_of_hex v))))
   | ["L"; name; pdu; a; b; r] ->
       let res = if r = "-" || r = "x" then None else Some (n_of_hex r) in
-      (match m_legacy (coq_string name) (pdu_of pdu) [N0; n_of_hex a; n_of_hex b] res with
+      (match m_legacy !fbe (coq_string name) (pdu_of pdu) [N0; n_of_hex a; n_of_hex b] res with
        | LR (ok, p, x) ->
            Printf.sprintf "R %s %s %s" (if ok then "0" else "E")
              (match p with None -> "-" | Some bb -> hex_of_buf bb)
@@ -159,42 +162,42 @@ let handle (ext : SS.t list -> SS.t option) line =
        | LOob -> "OOB" | LUnmod -> "UNMOD" | LNoSuch -> "NOSUCH")
   (* ACF-CAN builders: CC full|brief buf id payload plen variant ; CF full|brief buf plen ; CP buf payload plen ; CL buf *)
   | ["CC"; k; b; id; pl; plen; var] ->
-      show_can (k = "brief") (m_can_create (k = "brief") (buf_of_hex b) (n_of_hex id) (buf_of_hex pl) (n_of_hex plen) (n_of_hex var))
+      show_can (k = "brief") (m_can_create !fbe (k = "brief") (buf_of_hex b) (n_of_hex id) (buf_of_hex pl) (n_of_hex plen) (n_of_hex var))
   | ["SCC"; k; b; id; pl; var] ->
       show_can (k = "brief") (s_can_create (k = "brief") (buf_of_hex b) (n_of_hex id) (buf_of_hex pl) (n_of_hex var))
-  | ["CF"; k; b; plen] -> show_can (k = "brief") (m_can_finalize (k = "brief") (buf_of_hex b) (n_of_hex plen))
+  | ["CF"; k; b; plen] -> show_can (k = "brief") (m_can_finalize !fbe (k = "brief") (buf_of_hex b) (n_of_hex plen))
   | ["CP"; b; pl; plen] -> show_can false (m_can_set_payload (buf_of_hex b) (buf_of_hex pl) (n_of_hex plen))
-  | ["CL"; b] -> show_can false (m_can_payload_length (buf_of_hex b))
+  | ["CL"; b] -> show_can false (m_can_payload_length !fbe (buf_of_hex b))
   (* ACF-VSS *)
-  | ["VP"; b; n] -> show (m_vss_pad (buf_of_hex b) (n_of_hex n))
+  | ["VP"; b; n] -> show (m_vss_pad !fbe (buf_of_hex b) (n_of_hex n))
   | ["SVP"; b; n] -> show (s_vss_pad (buf_of_hex b) (n_of_hex n))
-  | ["VCL"; b] -> show (m_vss_calc (buf_of_hex b))
+  | ["VCL"; b] -> show (m_vss_calc !fbe (buf_of_hex b))
   | ["SVCL"; b] -> show (s_vss_calc (buf_of_hex b))
-  | ["VSP"; b; "static"; id] -> show (m_vss_set_path (buf_of_hex b) (PStatic (n_of_hex id)))
+  | ["VSP"; b; "static"; id] -> show (m_vss_set_path !fbe (buf_of_hex b) (PStatic (n_of_hex id)))
   | "VSP" :: b :: "interop" :: len :: rest ->
-      show (m_vss_set_path (buf_of_hex b) (PInterop (n_of_hex len, buf_of_hex (match rest with [h] -> h | _ -> "."))))
+      show (m_vss_set_path !fbe (buf_of_hex b) (PInterop (n_of_hex len, buf_of_hex (match rest with [h] -> h | _ -> "."))))
   | ["SVSP"; b; "static"; id] -> show (s_vss_set_path (buf_of_hex b) (RStatic (n_of_hex id)))
   | "SVSP" :: b :: "interop" :: _ :: rest -> show (s_vss_set_path (buf_of_hex b) (RInterop (buf_of_hex (match rest with [h] -> h | _ -> "."))))
   | ["VGP"; b; cap] ->
       show_out (function GStatic id -> "P static " ^ hex_of_n id
                        | GInterop (l, w) -> "P interop " ^ hex_of_n l ^ " " ^ hex_of_buf w
-                       | GPathNone -> "P none") (m_vss_get_path (buf_of_hex b) (n_of_hex cap))
+                       | GPathNone -> "P none") (m_vss_get_path !fbe (buf_of_hex b) (n_of_hex cap))
   | ["SVGP"; b] ->
       (match s_vss_get_path (buf_of_hex b) with
        | Some (RStatic id) -> "P static " ^ hex_of_n id
        | Some (RInterop p) -> "P interop " ^ hex_of_n (n_of_int (List.length p)) ^ " " ^ hex_of_buf p
        | None -> "P none")
-  | ["VSD"; b; "scalar"; v] -> show (m_vss_set_data (buf_of_hex b) (DScalar (n_of_hex v)))
-  | "VSD" :: b :: "bytes" :: len :: rest -> show (m_vss_set_data (buf_of_hex b) (DBytes (n_of_hex len, buf_of_hex (match rest with [h] -> h | _ -> "."))))
+  | ["VSD"; b; "scalar"; v] -> show (m_vss_set_data !fbe (buf_of_hex b) (DScalar (n_of_hex v)))
+  | "VSD" :: b :: "bytes" :: len :: rest -> show (m_vss_set_data !fbe (buf_of_hex b) (DBytes (n_of_hex len, buf_of_hex (match rest with [h] -> h | _ -> "."))))
   | "VSD" :: b :: "elems" :: len :: w :: rest ->
-      show (m_vss_set_data (buf_of_hex b) (DElems (n_of_hex len, elems_of_hex (int_of_string w) (match rest with [h] -> h | _ -> "."))))
+      show (m_vss_set_data !fbe (buf_of_hex b) (DElems (n_of_hex len, elems_of_hex (int_of_string w) (match rest with [h] -> h | _ -> "."))))
   | ["SVSD"; b; "scalar"; w; v] -> show (s_vss_set_data (buf_of_hex b) (RScalar (nat_of_int (int_of_string w), n_of_hex v)))
   | "SVSD" :: b :: "bytes" :: rest -> show (s_vss_set_data (buf_of_hex b) (RBytes (buf_of_hex (match rest with [h] -> h | _ -> "."))))
   | "SVSD" :: b :: "elems" :: w :: rest ->
       show (s_vss_set_data (buf_of_hex b) (RElems (nat_of_int (int_of_string w), elems_of_hex (int_of_string w) (match rest with [h] -> h | _ -> "."))))
   | ["VGD"; b; dst] ->
       let bb = buf_of_hex b in
-      let ew = (match m_vss_get_data bb None with _ -> ()) in ignore ew;
+      let ew = (match m_vss_get_data !fbe bb None with _ -> ()) in ignore ew;
       show_out (function
         | GScalar v -> "D scalar " ^ hex_of_n v
         | GBytes (l, w) -> "D bytes " ^ hex_of_n l ^ " " ^ (match w with None -> "-" | Some x -> hex_of_buf x)
@@ -202,7 +205,7 @@ let handle (ext : SS.t list -> SS.t option) line =
             (* element width from the header, for printing only *)
             let dt = (match s_vss_get_data bb with Some (RElems (wn, _)) -> (let rec cnt = function O -> 0 | S k -> 1 + cnt k in cnt wn) | _ -> 1) in
             "D elems " ^ hex_of_n l ^ " " ^ (match w with None -> "-" | Some x -> hex_of_elems dt x)
-        | GDataNone -> "D none") (m_vss_get_data bb (if dst = "-" then None else Some (n_of_hex dst)))
+        | GDataNone -> "D none") (m_vss_get_data !fbe bb (if dst = "-" then None else Some (n_of_hex dst)))
   | ["SVGD"; b] ->
       (match s_vss_get_data (buf_of_hex b) with
        | Some (RScalar (_, v)) -> "D scalar " ^ hex_of_n v
@@ -214,15 +217,15 @@ let handle (ext : SS.t list -> SS.t option) line =
   | ["VAP"; num; out; strs; _] ->
       let ss = if strs = "-" then [] else List.map (fun t -> match SS.split_on_char ':' t with
                  | [l; h] -> (n_of_hex l, buf_of_hex h) | _ -> failwith "str") (SS.split_on_char ',' strs) in
-      show_out (fun (dl, o) -> "A " ^ hex_of_n dl ^ " " ^ hex_of_buf o) (m_strs_pack ss (n_of_hex num) (buf_of_hex out))
+      show_out (fun (dl, o) -> "A " ^ hex_of_n dl ^ " " ^ hex_of_buf o) (m_strs_pack !fbe ss (n_of_hex num) (buf_of_hex out))
   | ["SVAP"; strs] ->
       let ss = if strs = "-" then [] else List.map buf_of_hex (SS.split_on_char ',' strs) in
       let (dl, o) = s_strs_pack ss in "A " ^ hex_of_n dl ^ " " ^ hex_of_buf o
-  | ["VAC"; dl; data] -> show_out (fun v -> "V " ^ hex_of_n v) (m_strs_count (n_of_hex dl) (buf_of_hex data))
+  | ["VAC"; dl; data] -> show_out (fun v -> "V " ^ hex_of_n v) (m_strs_count !fbe (n_of_hex dl) (buf_of_hex data))
   | ["VAU"; dl; data; num; dsts] ->
       let ds = if dsts = "." then [] else List.map (fun t -> if t = "-" then None else Some (n_of_hex t)) (SS.split_on_char ',' dsts) in
       show_out (fun l -> "U" ^ SS.concat "" (List.map (fun (n, w) -> " " ^ hex_of_n n ^ ":" ^ (match w with None -> "-" | Some x -> hex_of_buf x)) l))
-        (m_strs_unpack (n_of_hex dl) (buf_of_hex data) ds (n_of_hex num))
+        (m_strs_unpack !fbe (n_of_hex dl) (buf_of_hex data) ds (n_of_hex num))
   | ["SVAU"; dl; data] ->
       let l = s_strs_unpack (n_of_hex dl) (buf_of_hex data) in
       "U" ^ SS.concat "" (List.map (fun x -> " " ^ hex_of_n (n_of_int (List.length x)) ^ ":" ^ hex_of_buf x) l)
